@@ -106,6 +106,7 @@ type Chain struct {
 	Halted string           // non-empty once a blocker panicked/hung
 	Timeout time.Duration
 	encCfg cosmoscmd.EncodingConfig
+	sids   map[string]*sidInfo
 }
 
 func init() {
